@@ -47,8 +47,8 @@ structure DState where
   cons : Std.HashMap Nat (Con × Nat) := {}
   exps : Std.HashMap Nat Exp := {}
   builds : Std.HashMap String Nat := {}
-  /-- constraint id ↦ first constraint id with the same Z3 AST (assertion lists are compared through it) -/
-  canon : Std.HashMap Nat Nat := {}
+  /-- Z3 AST id ↦ truth table -/
+  zmask : Std.HashMap Nat Nat := {}
   dom : List Asg := []
   falseId : Nat := 0
   cls : SolverClass := .Solver
@@ -89,8 +89,8 @@ def maskOfDom (dom : List Asg) (f : Asg → Bool) : Nat :=
   (dom.foldl (fun (acc : Nat × Nat) a => (if f a then acc.1 ||| (1 <<< acc.2) else acc.1, acc.2 + 1)) (0, 0)).1
 
 def conOfMask (u : Uni) (id : Nat) (vars : List Nat) (isFalse : Bool) (conc : Option Bool)
-    (triv : Option (Var × Nat × Nat)) (mask : Nat) : Con :=
-  { id := id, vars := vars, sem := fun a => mask.testBit (u.index a), isFalse := isFalse, conc := conc, triv := triv }
+    (triv : Option (Var × Nat × Nat)) (mask : Nat) (zid : Nat) : Con :=
+  { id := id, zid := zid, vars := vars, sem := fun a => mask.testBit (u.index a), isFalse := isFalse, conc := conc, triv := triv }
 
 def buildKeyStr : BuildKey → String
   | .ule e m => s!"ule:{e.id}:{m}"
@@ -152,7 +152,7 @@ def showTag : ZTag → String
 
 def letterOf (k : Nat) : String := String.singleton (Char.ofNat (65 + k % 26)) ++ (if k ≥ 26 then toString (k / 26) else "")
 
-def showWorld (canon : Std.HashMap Nat Nat) (w : World) : String := Id.run do
+def showWorld (w : World) : String := Id.run do
   let mut order : List Nat := []
   let mut parts : List String := []
   let mut i := 0
@@ -167,7 +167,7 @@ def showWorld (canon : Std.HashMap Nat Nat) (w : World) : String := Id.run do
   let mut k := 0
   for r in order do
     let o := w.objs.getD r {}
-    parts := parts ++ [letterOf k ++ "{" ++ s!"scopes={o.frames.length - 1};asserts=[{",".intercalate (o.asserted.map fun c => showTag (match c.tag with | .con id => .con (canon.getD id id) | t => t))}]" ++ "}"]
+    parts := parts ++ [letterOf k ++ "{" ++ s!"scopes={o.frames.length - 1};asserts=[{",".intercalate (o.asserted.map fun c => showTag c.tag)}]" ++ "}"]
     k := k + 1
   return " ".intercalate parts
 
@@ -186,7 +186,7 @@ def showOut : Out → String
 
 def zconMask (d : DState) (c : ZCon) : Nat :=
   match c.tag with
-  | .con id => if id != 0 then (match d.cons.get? id with | some (_, m) => m | none => maskOfDom d.dom c.sem) else maskOfDom d.dom c.sem
+  | .con id => if id != 0 then (match d.zmask.get? id with | some m => m | none => maskOfDom d.dom c.sem) else maskOfDom d.dom c.sem
   | _ => maskOfDom d.dom c.sem
 
 def queryMask (d : DState) (q : Query) : Nat :=
@@ -254,8 +254,10 @@ def handleCon (d : DState) (args : List String) : DState × String :=
     let triv := match triv.splitOn ":" with
       | [v, x, e] => (match v.toNat?, x.toNat?, e.toNat? with | some v, some x, some e => some (v, x, e) | _, _, _ => none)
       | _ => none
-    let c := conOfMask d.uni id (parseList vars) (isF == "1") ((parseOptNat conc).map (· == 1)) triv m
-    ({ d with cons := d.cons.insert id (c, m), canon := d.canon.insert id (canon.toNat?.getD id) }, "ok")
+    let zid := canon.toNat?.getD id
+    let c := conOfMask d.uni id (parseList vars) (isF == "1") ((parseOptNat conc).map (· == 1)) triv m zid
+    let d := if d.zmask.contains zid then d else { d with zmask := d.zmask.insert zid m }
+    ({ d with cons := d.cons.insert id (c, m) }, "ok")
   | _ => (d, "bad-con")
 
 def handleExp (d : DState) (args : List String) : DState × String :=
@@ -335,7 +337,7 @@ def handleOp (d : DState) (args : List String) : DState × String :=
         | some why => ds := ds ++ ["spec:" ++ why]
         return ds
       ({ d with world := w, added := added },
-       showOut out ++ " ;; " ++ showWorld d.canon w ++ " ;; " ++ (if diags.isEmpty then "-" else ",".intercalate diags))
+       showOut out ++ " ;; " ++ showWorld w ++ " ;; " ++ (if diags.isEmpty then "-" else ",".intercalate diags))
   | _ => (d, "bad-op")
 
 def dispatch (d : DState) (line : String) : DState × String :=
